@@ -3,7 +3,9 @@
 package core
 
 import (
+	"encoding/json"
 	"fmt"
+	"net"
 	"os"
 	"path/filepath"
 	"reflect"
@@ -11,27 +13,670 @@ import (
 	"strings"
 	"testing"
 	"time"
+	"unsafe"
 
+	"github.com/bluenviron/mediamtx/internal/auth"
 	"github.com/bluenviron/mediamtx/internal/conf"
 	"github.com/bluenviron/mediamtx/internal/test"
 )
 
-var vC13Components = []string{"logger", "authManager", "metrics", "pprof", "recordCleaner", "playbackServer", "pathManager",
-	"rtspServer", "rtspsServer", "rtmpServer", "rtmpsServer", "hlsServer", "webRTCServer", "srtServer", "moqServer", "api"}
+// ---------------------------------------------------------------------------------------------------------------
+// the table printed by the translator (tools/gen/coredeps) on this run: components, the fields they are built from,
+// the `Key: currentConf.Field` / `Key: p.comp` bindings of their constructor literals, the atoms of their guards
+// ---------------------------------------------------------------------------------------------------------------
 
-func vC13Pointers(p *Core) map[string]uintptr {
-	out := map[string]uintptr{}
-	v := reflect.ValueOf(p).Elem()
-	for _, n := range vC13Components {
-		f := v.FieldByName(n)
-		if f.IsValid() && f.Kind() == reflect.Ptr {
-			out[n] = f.Pointer()
+type vC13Bind struct{ Key, Field string }
+
+type vC13Row struct {
+	Comp     string
+	Guard    []string
+	Uses     []string
+	Refs     []string
+	Cmp      []struct{ Field, Kind string }
+	Reload   []string
+	Atoms    []struct{ Field, Test string }
+	Binds    []vC13Bind
+	RefBinds []vC13Bind
+}
+
+type vC13Notes struct {
+	Table []vC13Row `json:"table"`
+}
+
+func vC13LoadNotes(t *testing.T) *vC13Notes {
+	p := filepath.Join(os.Getenv("VERIF_WORK"), "c13_notes.json")
+	b, err := os.ReadFile(p)
+	if err != nil {
+		t.Fatalf("the translator's notes are needed (VERIF_WORK/c13_notes.json): %v", err)
+	}
+	var n vC13Notes
+	if err = json.Unmarshal(b, &n); err != nil || len(n.Table) == 0 {
+		t.Fatalf("cannot read %s: %v", p, err)
+	}
+	return &n
+}
+
+// every configuration field the table mentions (base names), in order of first appearance
+func (n *vC13Notes) fields() []string {
+	seen := map[string]bool{}
+	var out []string
+	add := func(f string) {
+		if i := strings.IndexByte(f, '#'); i >= 0 {
+			f = f[:i]
+		}
+		if !seen[f] {
+			seen[f] = true
+			out = append(out, f)
+		}
+	}
+	for _, r := range n.Table {
+		for _, f := range r.Guard {
+			add(f)
+		}
+		for _, f := range r.Uses {
+			add(f)
+		}
+		for _, c := range r.Cmp {
+			add(c.Field)
 		}
 	}
 	return out
 }
 
-// groups of global parameters that are changed together (coupled ones must stay consistent)
+// derived guard fields ("Paths#atLeastOneRecordDeleteAfter")
+func (n *vC13Notes) derived() []string {
+	seen := map[string]bool{}
+	var out []string
+	for _, r := range n.Table {
+		for _, f := range append(append([]string{}, r.Guard...), r.Uses...) {
+			if strings.Contains(f, "#") && !seen[f] {
+				seen[f] = true
+				out = append(out, f)
+			}
+		}
+		for _, c := range r.Cmp {
+			if strings.Contains(c.Field, "#") && !seen[c.Field] {
+				seen[c.Field] = true
+				out = append(out, c.Field)
+			}
+		}
+	}
+	return out
+}
+
+var vC13DerivedFns = map[string]func(c *conf.Conf) any{
+	"Paths#atLeastOneRecordDeleteAfter": func(c *conf.Conf) any { return atLeastOneRecordDeleteAfter(c.Paths) },
+}
+
+var vC13Consts = map[string]any{
+	"EncryptionNo": conf.EncryptionNo, "EncryptionOptional": conf.EncryptionOptional, "EncryptionStrict": conf.EncryptionStrict,
+}
+
+// the driver's own reading of which components a configuration enables (documented meaning of the flags)
+func vC13Enabled(c *conf.Conf) map[string]bool {
+	cleaner := false
+	for _, pa := range c.Paths {
+		if pa.RecordDeleteAfter != 0 {
+			cleaner = true
+		}
+	}
+	plain := func(e conf.Encryption) bool { return e == conf.EncryptionNo || e == conf.EncryptionOptional }
+	tls := func(e conf.Encryption) bool { return e == conf.EncryptionStrict || e == conf.EncryptionOptional }
+	return map[string]bool{
+		"logger": true, "authManager": true, "pathManager": true,
+		"metrics": c.Metrics, "pprof": c.PPROF, "recordCleaner": cleaner, "playbackServer": c.Playback,
+		"rtspServer": c.RTSP && plain(c.RTSPEncryption), "rtspsServer": c.RTSP && tls(c.RTSPEncryption),
+		"rtmpServer": c.RTMP && plain(c.RTMPEncryption), "rtmpsServer": c.RTMP && tls(c.RTMPEncryption),
+		"hlsServer": c.HLS, "webRTCServer": c.WebRTC, "srtServer": c.SRT, "moqServer": c.MoQ, "api": c.API,
+	}
+}
+
+// ---------------------------------------------------------------------------------------------------------------
+// mutations of global parameters
+// ---------------------------------------------------------------------------------------------------------------
+
+type vC13Mut struct {
+	port int
+	k    int
+	dir  string
+}
+
+func (m *vC13Mut) nextPort() int { m.port += 2; return m.port }
+
+// parameters that only make sense together
+var vC13Companions = map[string][]string{
+	"RTPAddress": {"RTPAddress", "RTCPAddress"}, "RTCPAddress": {"RTPAddress", "RTCPAddress"},
+	"SRTPAddress": {"SRTPAddress", "SRTCPAddress"}, "SRTCPAddress": {"SRTPAddress", "SRTCPAddress"},
+	"MulticastRTPPort": {"MulticastRTPPort", "MulticastRTCPPort"}, "MulticastRTCPPort": {"MulticastRTPPort", "MulticastRTCPPort"},
+	"MulticastSRTPPort": {"MulticastSRTPPort", "MulticastSRTCPPort"}, "MulticastSRTCPPort": {"MulticastSRTPPort", "MulticastSRTCPPort"},
+}
+
+func (m *vC13Mut) jsonCandidates(name string, ty reflect.Type) []string {
+	switch ty.String() {
+	case "conf.LogLevel":
+		return []string{`"warn"`, `"error"`}
+	case "conf.LogDestinations":
+		return []string{`["stdout","file"]`, `["stdout"]`}
+	case "conf.AuthMethod":
+		return []string{`"http"`, `"internal"`}
+	case "conf.Encryption":
+		return []string{`"optional"`, `"no"`, `"strict"`}
+	case "conf.RTSPTransports":
+		return []string{`["tcp"]`, `["udp","tcp"]`}
+	case "conf.RTSPAuthMethods":
+		return []string{`["basic","digest"]`, `["basic"]`}
+	case "conf.IPNetworks":
+		return []string{fmt.Sprintf(`["10.%d.0.0/16"]`, m.k%250), `["192.168.0.0/16"]`}
+	case "conf.HLSVariant":
+		return []string{`"mpegts"`, `"fmp4"`, `"lowLatency"`}
+	case "[]conf.WebRTCICEServer":
+		return []string{fmt.Sprintf(`[{"url":"stun:127.0.0.1:%d"}]`, 3000+m.k)}
+	case "[]conf.AuthInternalUserPermission":
+		return []string{`[{"action":"api"}]`, `[{"action":"metrics"}]`}
+	case "*bool":
+		return []string{`true`, `false`}
+	case "*uint":
+		return []string{fmt.Sprint(2048 + 1024*(m.k%3)), fmt.Sprint(2560 + 1024*(m.k%3))}
+	case "[]string":
+		switch name {
+		case "WebRTCAdditionalHosts":
+			return []string{fmt.Sprintf(`["192.0.2.%d"]`, 1+m.k%250)}
+		case "WebRTCIPsFromInterfacesList":
+			return []string{`["lo"]`, `[]`}
+		}
+		return []string{fmt.Sprintf(`["https://o%d.example.org"]`, m.k)}
+	}
+	return nil
+}
+
+// set1 gives one field a new valid-looking value; candidate number `try` (false when there is no such candidate)
+func (m *vC13Mut) set1(c *conf.Conf, name string, try int) bool {
+	f := reflect.ValueOf(c).Elem().FieldByName(name)
+	if !f.IsValid() {
+		return false
+	}
+	str := func(cands ...string) bool {
+		if try >= len(cands) {
+			return false
+		}
+		f.SetString(cands[try])
+		return true
+	}
+	if f.Kind() == reflect.String && f.Type().String() == "string" {
+		switch {
+		case name == "AuthHTTPAddress":
+			return str(fmt.Sprintf("http://127.0.0.1:9/auth%d", m.k))
+		case name == "AuthJWTJWKS":
+			return str(fmt.Sprintf("http://127.0.0.1:9/jwks%d", m.k))
+		case strings.HasSuffix(name, "Fingerprint"):
+			return str(fmt.Sprintf("%064x", m.k))
+		case name == "MulticastIPRange":
+			return str("224.1.0.0/16", "224.2.0.0/16")
+		case name == "RTCPAddress" || name == "SRTCPAddress": // follows the RTP port just chosen
+			return str(fmt.Sprintf(":%d", m.port+1))
+		case strings.HasSuffix(name, "ServerKey"):
+			return str(filepath.Join(m.dir, "server2.key"), filepath.Join(m.dir, "server.key"))
+		case strings.HasSuffix(name, "ServerCert"):
+			return str(filepath.Join(m.dir, "server2.crt"), filepath.Join(m.dir, "server.crt"))
+		case name == "LogFile":
+			return str(filepath.Join(m.dir, fmt.Sprintf("log%d.txt", m.k)))
+		case name == "HLSDirectory":
+			d := filepath.Join(m.dir, fmt.Sprintf("hls%d", m.k))
+			os.MkdirAll(d, 0o755)
+			return str(d)
+		case name == "HLSCDNSecret":
+			return str(fmt.Sprintf("secret%d", m.k))
+		case strings.HasSuffix(name, "Address"):
+			if try > 0 {
+				return false
+			}
+			return str(fmt.Sprintf(":%d", m.nextPort()))
+		case strings.HasPrefix(name, "RunOn"):
+			return str(fmt.Sprintf("true %d", m.k))
+		default:
+			return str(fmt.Sprintf("v%d", m.k))
+		}
+	}
+	if cands := m.jsonCandidates(name, f.Type()); cands != nil {
+		if try >= len(cands) {
+			return false
+		}
+		nv := reflect.New(f.Type())
+		if err := json.Unmarshal([]byte(cands[try]), nv.Interface()); err != nil {
+			return false
+		}
+		f.Set(nv.Elem())
+		return true
+	}
+	if try > 1 {
+		return false
+	}
+	switch f.Kind() {
+	case reflect.Bool:
+		if try > 0 {
+			return false
+		}
+		f.SetBool(!f.Bool())
+	case reflect.Int64: // conf.Duration
+		f.SetInt(f.Int() + int64(time.Second)*int64(1+try))
+	case reflect.Int:
+		switch {
+		case name == "WriteQueueSize":
+			f.SetInt([]int64{1024, 512}[try])
+		case name == "UDPMaxPayloadSize":
+			f.SetInt(1400 + int64((m.k+try)%50))
+		case strings.HasSuffix(name, "Port"):
+			f.SetInt(f.Int() + 2 + 2*int64(try))
+		default:
+			f.SetInt(f.Int() + 1 + int64(try))
+		}
+	case reflect.Uint, reflect.Uint64: // UDPReadBufferSize, conf.StringSize
+		if name == "UDPReadBufferSize" {
+			f.SetUint([]uint64{65536, 32768}[try])
+		} else {
+			f.SetUint(f.Uint() + 1024*1024*uint64(1+try))
+		}
+	default:
+		return false
+	}
+	return true
+}
+
+// mutate changes the parameters (and their companions) of a clone of cur so that the result validates: for every
+// parameter the first candidate value that differs from the current one (second pass: the second such candidate).
+func (m *vC13Mut) mutate(cur *conf.Conf, names []string) (*conf.Conf, error) {
+	var all []string
+	seen := map[string]bool{}
+	for _, name := range names {
+		cs, ok := vC13Companions[name]
+		if !ok {
+			cs = []string{name}
+		}
+		for _, n := range cs {
+			if !seen[n] {
+				seen[n] = true
+				all = append(all, n)
+			}
+		}
+	}
+	var lastErr error
+	for pass := 0; pass < 2; pass++ {
+		c := cur.Clone()
+		for _, n := range all {
+			m.k++
+			old := reflect.ValueOf(cur).Elem().FieldByName(n)
+			if !old.IsValid() {
+				return nil, fmt.Errorf("%s: no such parameter", n)
+			}
+			found := 0
+			for try := 0; try < 4 && found <= pass; try++ {
+				probe := cur.Clone()
+				if !m.set1(probe, n, try) {
+					break
+				}
+				nv := reflect.ValueOf(probe).Elem().FieldByName(n)
+				if reflect.DeepEqual(old.Interface(), nv.Interface()) {
+					continue
+				}
+				found++
+				reflect.ValueOf(c).Elem().FieldByName(n).Set(nv)
+			}
+			if found == 0 {
+				return nil, fmt.Errorf("no candidate value for %s", vC13TypeOf([]string{n}))
+			}
+		}
+		err := c.Validate(nil)
+		if err == nil {
+			return c, nil
+		}
+		lastErr = fmt.Errorf("Validate: %w", err)
+	}
+	return nil, lastErr
+}
+
+func vC13TypeOf(names []string) string {
+	var out []string
+	for _, n := range names {
+		if f, ok := reflect.TypeOf(conf.Conf{}).FieldByName(n); ok {
+			out = append(out, n+" "+f.Type.String())
+		} else {
+			out = append(out, n+" (no such field)")
+		}
+	}
+	return strings.Join(out, ", ")
+}
+
+// ---------------------------------------------------------------------------------------------------------------
+// observation of the running components
+// ---------------------------------------------------------------------------------------------------------------
+
+type vC13Obs struct {
+	changed, ptrFresh []string
+	atomsTrue         [][2]string
+	enabled           []string
+	ident             map[string]int64 // present components only
+	notHeld, stale    [][2]string
+	compared          int
+}
+
+type vC13Sess struct {
+	t      *testing.T
+	p      *Core
+	notes  *vC13Notes
+	keep   []any                        // every instance ever seen stays reachable: addresses are never reused
+	serial map[string]map[uintptr]int64 // per component: instance -> serial number (within the current history)
+	nstep  int64
+	skip   map[[2]string]string // (component, field / held component) -> why it is not compared
+	calib  bool
+	users  []string // verif users currently in AuthInternalUsers (name = pass)
+	gone   []string // verif users removed by the last change
+}
+
+func vC13Field(v reflect.Value, name string) (reflect.Value, bool) {
+	f := v.FieldByName(name)
+	if !f.IsValid() {
+		return f, false
+	}
+	if !f.CanInterface() { // unexported (pathManager): in-package, read through its address
+		f = reflect.NewAt(f.Type(), unsafe.Pointer(f.UnsafeAddr())).Elem()
+	}
+	return f, true
+}
+
+func (s *vC13Sess) comp(name string) (reflect.Value, uintptr) {
+	f := reflect.ValueOf(s.p).Elem().FieldByName(name)
+	if !f.IsValid() || f.Kind() != reflect.Ptr {
+		s.t.Fatalf("Core has no pointer field %q (table out of step with the driver)", name)
+	}
+	f = reflect.NewAt(f.Type(), unsafe.Pointer(f.UnsafeAddr())).Elem()
+	if f.IsNil() {
+		return f, 0
+	}
+	return f, f.Pointer()
+}
+
+func vC13PtrOf(f reflect.Value) (uintptr, bool) {
+	switch f.Kind() {
+	case reflect.Ptr:
+		return f.Pointer(), true
+	case reflect.Interface:
+		if f.IsNil() {
+			return 0, true
+		}
+		e := f.Elem()
+		if e.Kind() == reflect.Ptr {
+			return e.Pointer(), true
+		}
+	}
+	return 0, false
+}
+
+// same: does the component's field hold the configuration's value (after the conversion the constructor applies)?
+func vC13Same(cv, fv reflect.Value) (bool, bool) {
+	if cv.Type() != fv.Type() {
+		if cv.Kind() != fv.Kind() || !fv.Type().ConvertibleTo(cv.Type()) {
+			return false, false
+		}
+		fv = fv.Convert(cv.Type())
+	}
+	return reflect.DeepEqual(cv.Interface(), fv.Interface()), true
+}
+
+// settle waits until the asynchronous in-place reloads have been taken over by the component's own goroutine
+func (s *vC13Sess) settle(cur *conf.Conf) {
+	if s.p.pathManager != nil {
+		s.p.pathManager.APIPathsList() //nolint:errcheck // processed by the manager's loop after any pending reload
+	}
+	if rc := s.p.recordCleaner; rc != nil {
+		want := reflect.ValueOf(cur.Paths).Pointer()
+		for i := 0; i < 100; i++ {
+			f, _ := vC13Field(reflect.ValueOf(rc).Elem(), "PathConfs")
+			if f.Pointer() == want || reflect.DeepEqual(f.Interface(), cur.Paths) {
+				break
+			}
+			time.Sleep(10 * time.Millisecond)
+		}
+	}
+}
+
+func (s *vC13Sess) observe(prev, cur *conf.Conf) vC13Obs {
+	s.settle(cur)
+	o := vC13Obs{ident: map[string]int64{}}
+	// what changed
+	if prev != nil {
+		pv, cv := reflect.ValueOf(prev).Elem(), reflect.ValueOf(cur).Elem()
+		for i := 0; i < pv.NumField(); i++ {
+			sf := pv.Type().Field(i)
+			if !sf.IsExported() {
+				continue
+			}
+			if !reflect.DeepEqual(pv.Field(i).Interface(), cv.Field(i).Interface()) {
+				o.changed = append(o.changed, sf.Name)
+			}
+			if pv.Field(i).Kind() == reflect.Ptr && pv.Field(i).Pointer() != cv.Field(i).Pointer() {
+				o.ptrFresh = append(o.ptrFresh, sf.Name)
+			}
+		}
+		for _, d := range s.notes.derived() {
+			fn := vC13DerivedFns[d]
+			if fn == nil {
+				s.t.Fatalf("derived guard field %s is unknown to the driver", d)
+			}
+			if !reflect.DeepEqual(fn(prev), fn(cur)) {
+				o.changed = append(o.changed, d)
+			}
+		}
+	}
+	// guard atoms and the driver's own view of what is enabled
+	seenAtom := map[[2]string]bool{}
+	for _, r := range s.notes.Table {
+		for _, a := range r.Atoms {
+			k := [2]string{a.Field, a.Test}
+			if seenAtom[k] {
+				continue
+			}
+			seenAtom[k] = true
+			var truth bool
+			switch {
+			case strings.Contains(a.Field, "#"):
+				fn := vC13DerivedFns[a.Field]
+				if fn == nil {
+					s.t.Fatalf("derived guard field %s is unknown to the driver", a.Field)
+				}
+				truth, _ = fn(cur).(bool)
+			case a.Test == "":
+				f := reflect.ValueOf(cur).Elem().FieldByName(a.Field)
+				if !f.IsValid() || f.Kind() != reflect.Bool {
+					s.t.Fatalf("guard atom %s is not a boolean parameter", a.Field)
+				}
+				truth = f.Bool()
+			default:
+				k, ok := vC13Consts[a.Test]
+				f := reflect.ValueOf(cur).Elem().FieldByName(a.Field)
+				if !ok || !f.IsValid() {
+					s.t.Fatalf("guard atom %s == %s is unknown to the driver", a.Field, a.Test)
+				}
+				truth = reflect.DeepEqual(f.Interface(), k)
+			}
+			if truth {
+				o.atomsTrue = append(o.atomsTrue, k)
+			}
+		}
+	}
+	en := vC13Enabled(cur)
+	for _, r := range s.notes.Table {
+		e, ok := en[r.Comp]
+		if !ok {
+			s.t.Fatalf("component %s is unknown to the driver", r.Comp)
+		}
+		if e {
+			o.enabled = append(o.enabled, r.Comp)
+		}
+	}
+	// instances
+	cur2ptr := map[string]uintptr{}
+	for _, r := range s.notes.Table {
+		v, ptr := s.comp(r.Comp)
+		cur2ptr[r.Comp] = ptr
+		if ptr == 0 {
+			continue
+		}
+		if s.serial[r.Comp] == nil {
+			s.serial[r.Comp] = map[uintptr]int64{}
+		}
+		if _, ok := s.serial[r.Comp][ptr]; !ok {
+			s.serial[r.Comp][ptr] = s.nstep + 1
+			s.keep = append(s.keep, v.Interface())
+		}
+		o.ident[r.Comp] = s.serial[r.Comp][ptr]
+	}
+	// what the running components hold
+	for _, r := range s.notes.Table {
+		v, ptr := s.comp(r.Comp)
+		if ptr == 0 {
+			continue
+		}
+		inst := v.Elem()
+		if inst.Kind() != reflect.Struct {
+			continue
+		}
+		okField := map[string]bool{}  // field -> compared at least once
+		badField := map[string]bool{} // field -> some binding does not hold the new value
+		for _, b := range r.Binds {
+			cf, ok1 := vC13Field(inst, b.Key)
+			fv := reflect.ValueOf(cur).Elem().FieldByName(b.Field)
+			if !ok1 || !fv.IsValid() {
+				continue
+			}
+			same, cmp := vC13Same(cf, fv)
+			if !cmp {
+				continue
+			}
+			if s.calib && !same {
+				s.skip[[2]string{r.Comp, b.Field + "@" + b.Key}] = "differs right after New (the component rewrites it)"
+				continue
+			}
+			if _, sk := s.skip[[2]string{r.Comp, b.Field + "@" + b.Key}]; sk {
+				continue
+			}
+			okField[b.Field] = true
+			o.compared++
+			if !same {
+				badField[b.Field] = true
+			}
+		}
+		// the auth manager's behaviour: a user of the new list is admitted, a removed one is not
+		if r.Comp == "authManager" && okField["AuthInternalUsers"] && cur.AuthMethod == conf.AuthMethodInternal {
+			admit := func(u string) bool {
+				_, err := s.p.authManager.Authenticate(&auth.Request{
+					Action: conf.AuthActionAPI, IP: net.ParseIP("192.0.2.7"),
+					Credentials: &auth.Credentials{User: u, Pass: u},
+				})
+				return err == nil
+			}
+			for _, u := range s.users {
+				o.compared++
+				if !admit(u) {
+					badField["AuthInternalUsers"] = true
+				}
+			}
+			for _, u := range s.gone {
+				o.compared++
+				if admit(u) {
+					badField["AuthInternalUsers"] = true
+				}
+			}
+		}
+		for _, f := range r.Uses {
+			if strings.Contains(f, "#") {
+				continue
+			}
+			if !okField[f] {
+				if s.calib {
+					s.skip[[2]string{r.Comp, f}] = "no directly comparable constructor binding"
+				}
+				continue
+			}
+			if badField[f] {
+				o.notHeld = append(o.notHeld, [2]string{r.Comp, f})
+			}
+		}
+		okRef := map[string]bool{}
+		for _, b := range r.RefBinds {
+			cf, ok1 := vC13Field(inst, b.Key)
+			if !ok1 {
+				continue
+			}
+			got, ok2 := vC13PtrOf(cf)
+			if !ok2 {
+				continue
+			}
+			okRef[b.Field] = true
+			o.compared++
+			if got != cur2ptr[b.Field] {
+				o.stale = append(o.stale, [2]string{r.Comp, b.Field})
+			}
+		}
+		if s.calib {
+			for _, d := range r.Refs {
+				if !okRef[d] {
+					s.skip[[2]string{r.Comp, d}] = "no comparable reference binding (Parent: p)"
+				}
+			}
+		}
+	}
+	return o
+}
+
+// begin starts a history on the running Core: serial numbers restart at 1
+func (s *vC13Sess) begin() vC13Obs {
+	s.serial = map[string]map[uintptr]int64{}
+	s.nstep = 0
+	return s.observe(nil, s.p.conf.Load())
+}
+
+func (s *vC13Sess) reload(newConf *conf.Conf) (vC13Obs, error) {
+	cur := s.p.conf.Load()
+	if err := s.p.reloadConf(newConf); err != nil {
+		return vC13Obs{}, err
+	}
+	s.nstep++
+	return s.observe(cur, newConf), nil
+}
+
+func vC13Pairs(xs [][2]string) string {
+	return cqListOf(xs, func(p [2]string) string { return cqPair(fmt.Sprintf("%q", p[0]), fmt.Sprintf("%q", p[1])) })
+}
+
+func vC13Strs(xs []string) string {
+	return cqListOf(xs, func(s string) string { return fmt.Sprintf("%q", s) })
+}
+
+func (s *vC13Sess) term(o vC13Obs, relevant map[string]bool) string {
+	var ch, pf []string
+	for _, f := range o.changed {
+		if relevant[f] {
+			ch = append(ch, f)
+		}
+	}
+	for _, f := range o.ptrFresh {
+		if relevant[f] {
+			pf = append(pf, f)
+		}
+	}
+	var ids []string
+	for _, r := range s.notes.Table {
+		if g, ok := o.ident[r.Comp]; ok {
+			ids = append(ids, cqPair(fmt.Sprintf("%q", r.Comp), cqZ(g)))
+		}
+	}
+	return cqApp("Step", vC13Strs(ch), vC13Strs(pf), vC13Pairs(o.atomsTrue), vC13Strs(o.enabled), cqList(ids),
+		vC13Pairs(o.notHeld), vC13Pairs(o.stale))
+}
+
+// ---------------------------------------------------------------------------------------------------------------
+
+// groups of global parameters that are changed together by the quick tier (coupled ones must stay consistent)
 var vC13Groups = [][]string{
 	{}, // no change at all: nothing may be recreated
 	{"ReadTimeout"}, {"WriteTimeout"}, {"WriteQueueSize"}, {"UDPMaxPayloadSize"},
@@ -39,99 +684,53 @@ var vC13Groups = [][]string{
 	{"AuthHTTPAddress"}, {"AuthJWTClaimKey"}, {"AuthJWTIssuer"},
 	{"MetricsAddress"}, {"MetricsAllowOrigins"}, {"PPROFAddress"}, {"PPROFAllowOrigins"},
 	{"PlaybackAddress"}, {"PlaybackAllowOrigins"}, {"APIAddress"}, {"APIAllowOrigins"},
-	{"RTSPAddress"}, {"RTSPSAddress"}, {"RTPAddress", "RTCPAddress"}, {"SRTPAddress", "SRTCPAddress"},
-	{"MulticastIPRange"}, {"MulticastRTPPort", "MulticastRTCPPort"}, {"MulticastSRTPPort", "MulticastSRTCPPort"},
+	{"RTSPAddress"}, {"RTSPSAddress"}, {"RTPAddress"}, {"SRTPAddress"},
+	{"MulticastIPRange"}, {"MulticastRTPPort"}, {"MulticastSRTPPort"},
 	{"RTMPAddress"}, {"RTMPSAddress"},
 	{"HLSAddress"}, {"HLSAllowOrigins"}, {"HLSSegmentCount"}, {"HLSSegmentDuration"}, {"HLSMuxerCloseAfter"},
 	{"WebRTCAddress"}, {"WebRTCAllowOrigins"}, {"WebRTCLocalUDPAddress"}, {"WebRTCHandshakeTimeout"}, {"WebRTCTrackGatherTimeout"},
 	{"SRTAddress"},
 	{"RTSPUDPReadBufferSize"},
 	{"MoQQUICAddress"}, {"MoQAllowOrigins"},
+	{"*users"}, {"*paths"}, {"*cleaner"}, // in-place reloads
 }
 
-type vC13Mut struct {
-	port int
-	k    int
-}
-
-func (m *vC13Mut) nextPort() int { m.port += 2; return m.port }
-
-func (m *vC13Mut) apply(c *conf.Conf, name string) bool {
-	f := reflect.ValueOf(c).Elem().FieldByName(name)
-	if !f.IsValid() {
-		return false
-	}
-	m.k++
-	switch f.Kind() {
-	case reflect.String:
-		switch {
-		case name == "AuthHTTPAddress":
-			f.SetString(fmt.Sprintf("http://127.0.0.1:9/auth%d", m.k))
-		case name == "MulticastIPRange":
-			if f.String() == "224.1.0.0/16" {
-				f.SetString("224.2.0.0/16")
-			} else {
-				f.SetString("224.1.0.0/16")
-			}
-		case name == "RTCPAddress" || name == "SRTCPAddress": // must follow the RTP port just chosen
-			f.SetString(fmt.Sprintf(":%d", m.port+1))
-		case strings.HasSuffix(name, "Address"):
-			f.SetString(fmt.Sprintf(":%d", m.nextPort()))
-		default:
-			f.SetString(fmt.Sprintf("true %d", m.k))
-		}
-	case reflect.Int64:
-		f.SetInt(f.Int() + int64(time.Second))
-	case reflect.Int:
-		switch {
-		case name == "WriteQueueSize":
-			if f.Int() == 512 {
-				f.SetInt(1024)
-			} else {
-				f.SetInt(512)
-			}
-		case name == "UDPMaxPayloadSize":
-			f.SetInt(1400 + int64(m.k%50))
-		case strings.HasSuffix(name, "Port"):
-			f.SetInt(f.Int() + 2)
-		default:
-			f.SetInt(f.Int() + 1)
-		}
-	case reflect.Bool:
-		f.SetBool(!f.Bool())
-	case reflect.Slice:
-		if f.Type().Elem().Kind() != reflect.String {
-			return false
-		}
-		f.Set(reflect.ValueOf([]string{fmt.Sprintf("https://o%d.example.org", m.k)}).Convert(f.Type()))
-	case reflect.Ptr:
-		if f.Type().Elem().Kind() != reflect.Uint {
-			return false
-		}
-		v := uint(2048 + 1024*(m.k%3))
-		if !f.IsNil() && f.Elem().Uint() == uint64(v) {
-			v += 512
-		}
-		f.Set(reflect.ValueOf(&v))
-	default:
-		return false
-	}
-	return true
-}
+// the enable flags (guards) flipped by the histories
+var vC13Flags = []string{"Metrics", "PPROF", "Playback", "RTSP", "RTMP", "HLS", "WebRTC", "SRT", "MoQ", "API"}
 
 func TestVerifC13(t *testing.T) {
 	r := vNewRand(vSeed())
 	out := vOpenOut()
 	defer out.Close()
 	n := vN()
+	thorough := os.Getenv("VERIF_TIER") == "thorough" || n >= 60
+	notes := vC13LoadNotes(t)
 
 	dir := t.TempDir()
-	os.WriteFile(filepath.Join(dir, "server.crt"), test.TLSCertPub, 0o644)
-	os.WriteFile(filepath.Join(dir, "server.key"), test.TLSCertKey, 0o600)
-	base := 21000 + (os.Getpid()%400)*100
-	mu := &vC13Mut{port: base + 40}
+	for _, nm := range []string{"server.crt", "server2.crt"} {
+		os.WriteFile(filepath.Join(dir, nm), test.TLSCertPub, 0o644)
+	}
+	for _, nm := range []string{"server.key", "server2.key"} {
+		os.WriteFile(filepath.Join(dir, nm), test.TLSCertKey, 0o600)
+	}
+	// relative paths of the configuration (log file, packet dumps, recordings) must not land in the source tree
+	if wd, err := os.Getwd(); err == nil {
+		defer os.Chdir(wd) //nolint:errcheck
+	}
+	if err := os.Chdir(dir); err != nil {
+		t.Fatal(err)
+	}
+	base := 20000 + (os.Getpid()%150)*250
+	mu := &vC13Mut{port: base + 40, dir: dir}
 	crt, key := filepath.Join(dir, "server.crt"), filepath.Join(dir, "server.key")
+	var tlsLines strings.Builder
+	for _, pfx := range []string{"api", "metrics", "pprof", "playback", "rtsp", "rtmp", "hls", "webrtc", "moq"} {
+		fmt.Fprintf(&tlsLines, "%sServerKey: %s\n%sServerCert: %s\n", pfx, key, pfx, crt)
+	}
 	yml := fmt.Sprintf(`logLevel: error
+logFile: %s
+authHTTPAddress: http://127.0.0.1:9/auth
+authJWTJWKS: http://127.0.0.1:9/jwks
 api: yes
 apiAddress: :%d
 metrics: yes
@@ -142,8 +741,6 @@ playback: yes
 playbackAddress: :%d
 rtsp: yes
 rtspEncryption: optional
-rtspServerKey: %s
-rtspServerCert: %s
 rtspTransports: [udp, tcp]
 rtspAddress: :%d
 rtspsAddress: :%d
@@ -154,8 +751,6 @@ srtcpAddress: :%d
 rtspUDPReadBufferSize: 2048
 rtmp: yes
 rtmpEncryption: optional
-rtmpServerKey: %s
-rtmpServerCert: %s
 rtmpAddress: :%d
 rtmpsAddress: :%d
 hls: yes
@@ -163,18 +758,17 @@ hlsAddress: :%d
 webrtc: yes
 webrtcAddress: :%d
 webrtcLocalUDPAddress: :%d
+webrtcAdditionalHosts: [127.0.0.1]
 srt: yes
 srtAddress: :%d
 moq: yes
 moqHTTP2Address: :%d
 moqHTTP3Address: :%d
 moqQUICAddress: :%d
-moqServerKey: %s
-moqServerCert: %s
-paths:
+%spaths:
   all_others:
-`, base, base+1, base+2, base+3, key, crt, base+4, base+5, base+10, base+11, base+12, base+13, key, crt,
-		base+6, base+7, base+8, base+9, base+14, base+15, base+16, base+16, base+17, key, crt)
+`, filepath.Join(dir, "mediamtx.log"), base, base+1, base+2, base+3, base+4, base+5, base+10, base+11, base+12, base+13,
+		base+6, base+7, base+8, base+9, base+14, base+15, base+16, base+16, base+17, tlsLines.String())
 	cf := filepath.Join(dir, "mediamtx.yml")
 	os.WriteFile(cf, []byte(yml), 0o644)
 
@@ -182,10 +776,230 @@ paths:
 	if !ok {
 		t.Fatalf("core did not start")
 	}
-	defer p.Close()
+	defer func() { p.Close() }()
 
-	// the corpus first: the groups behind past findings, then a seeded selection
-	order := []int{0, 23, 24, 26, 40, 41, 0}
+	s := &vC13Sess{t: t, p: p, notes: notes, skip: map[[2]string]string{}}
+	relevant := map[string]bool{}
+	for _, f := range notes.fields() {
+		relevant[f] = true
+	}
+	for _, f := range notes.derived() {
+		relevant[f] = true
+	}
+
+	// calibration on the freshly started Core: which bindings can be compared at all
+	s.calib = true
+	s.begin()
+	s.calib = false
+	var skipped [][2]string
+	skipNotes := map[string]string{}
+	for k, why := range s.skip {
+		if !strings.Contains(k[1], "@") {
+			skipped = append(skipped, k)
+		}
+		skipNotes[k[0]+"."+k[1]] = why
+	}
+	sort.Slice(skipped, func(i, j int) bool { return skipped[i][0]+"."+skipped[i][1] < skipped[j][0]+"."+skipped[j][1] })
+	out.extra["not_compared"] = skipNotes
+	skippedTerm := vC13Pairs(skipped)
+
+	maxCompared := 0
+	reloadErrors := map[string]string{}
+	unmutable := map[string]string{}
+
+	// next configuration for a group (nil, reason when it cannot be built)
+	next := func(cur *conf.Conf, group []string) (*conf.Conf, error) {
+		var plain []string
+		c := cur
+		for _, g := range group {
+			switch g {
+			case "*users": // replace the verif user: the old one must be rejected, the new one admitted
+				mu.k++
+				c = c.Clone()
+				var users []conf.AuthInternalUser
+				for _, u := range c.AuthInternalUsers {
+					if !strings.HasPrefix(string(u.User), "verifu") {
+						users = append(users, u)
+					}
+				}
+				nu := fmt.Sprintf("verifu%d", mu.k)
+				users = append(users, conf.AuthInternalUser{
+					User: conf.Credential(nu), Pass: conf.Credential(nu),
+					Permissions: []conf.AuthInternalUserPermission{{Action: conf.AuthActionAPI}},
+				})
+				c.AuthInternalUsers = users
+				if err := c.Validate(nil); err != nil {
+					return nil, err
+				}
+			case "*paths": // one more path
+				mu.k++
+				c = c.Clone()
+				var op conf.OptionalPath
+				if err := json.Unmarshal([]byte(fmt.Sprintf(`{"recordDeleteAfter":"%dh"}`, 2+mu.k%20)), &op); err != nil {
+					return nil, err
+				}
+				if err := c.AddPath(fmt.Sprintf("verifp%d", mu.k), &op); err != nil {
+					return nil, err
+				}
+				if err := c.Validate(nil); err != nil {
+					return nil, err
+				}
+			case "*cleaner": // recordDeleteAfter of every path 0 <-> 1d: the record cleaner goes away / comes back
+				c = c.Clone()
+				v := `{"recordDeleteAfter":"0s"}`
+				if !atLeastOneRecordDeleteAfter(c.Paths) {
+					v = `{"recordDeleteAfter":"24h"}`
+				}
+				var op conf.OptionalPath
+				if err := json.Unmarshal([]byte(v), &op); err != nil {
+					return nil, err
+				}
+				c.PatchPathDefaults(&op)
+				for name := range c.OptionalPaths {
+					if strings.HasPrefix(name, "verifp") {
+						c.RemovePath(name) //nolint:errcheck
+					}
+				}
+				if err := c.Validate(nil); err != nil {
+					return nil, err
+				}
+			default:
+				plain = append(plain, g)
+			}
+		}
+		if len(plain) > 0 || len(group) == 0 {
+			return mu.mutate2(c, plain)
+		}
+		return c, nil
+	}
+
+	track := func(newConf *conf.Conf) {
+		var users []string
+		for _, u := range newConf.AuthInternalUsers {
+			if strings.HasPrefix(string(u.User), "verifu") {
+				users = append(users, string(u.User))
+			}
+		}
+		have := map[string]bool{}
+		for _, u := range users {
+			have[u] = true
+		}
+		s.gone = nil
+		for _, u := range s.users {
+			if !have[u] {
+				s.gone = append(s.gone, u)
+			}
+		}
+		s.users = users
+	}
+
+	restart := func(why string) {
+		reloadErrors["restart:"+why] = "Core restarted from the initial configuration"
+		s.p.Close()
+		np, ok2 := New([]string{cf})
+		if !ok2 {
+			t.Fatalf("core did not restart after %s", why)
+		}
+		s.p = np
+		p = np
+		s.users, s.gone = nil, nil
+	}
+
+	// runHistory performs the steps on the running Core and emits one case
+	runHistory := func(kind string, steps [][]string) int {
+		init := s.begin()
+		terms := []string{}
+		var descSteps []map[string]any
+		nontrivial := false
+		okSteps := 0
+		for _, group := range steps {
+			cur := s.p.conf.Load()
+			newConf, err := next(cur, group)
+			if err != nil {
+				unmutable[strings.Join(group, "+")] = err.Error()
+				continue
+			}
+			prevUsers, prevGone := s.users, s.gone
+			track(newConf)
+			o, err := s.reload(newConf)
+			if err != nil {
+				reloadErrors[strings.Join(group, "+")] = err.Error()
+				s.users, s.gone = prevUsers, prevGone
+				if err2 := s.p.reloadConf(cur); err2 != nil {
+					restart(strings.Join(group, "+"))
+				}
+				return 0 // the history is abandoned: the Core's state after a failed reload is not a subject of the property
+			}
+			okSteps++
+			if o.compared > maxCompared {
+				maxCompared = o.compared
+			}
+			var rel []string
+			for _, f := range o.changed {
+				if relevant[f] {
+					rel = append(rel, f)
+				}
+			}
+			if len(rel) > 0 {
+				nontrivial = true
+			}
+			terms = append(terms, s.term(o, relevant))
+			d := map[string]any{"changed": rel, "instances": o.ident}
+			if len(o.notHeld) > 0 {
+				d["not_holding_the_new_value"] = o.notHeld
+			}
+			if len(o.stale) > 0 {
+				d["stale_references"] = o.stale
+			}
+			var absent []string
+			for _, rw := range notes.Table {
+				if _, ok := o.ident[rw.Comp]; !ok {
+					absent = append(absent, rw.Comp)
+				}
+			}
+			if len(absent) > 0 {
+				d["absent"] = absent
+			}
+			descSteps = append(descSteps, d)
+		}
+		if okSteps == 0 {
+			return 0
+		}
+		// outcome class of the last step
+		last := descSteps[len(descSteps)-1]["instances"].(map[string]int64)
+		nrec := 0
+		for _, g := range last {
+			if g == s.nstep+1 {
+				nrec++
+			}
+		}
+		class := kind + "/some-recreated"
+		if nrec == 0 {
+			class = kind + "/none-recreated"
+		} else if nrec == len(last) {
+			class = kind + "/all-recreated"
+		}
+		desc := map[string]any{"kind": kind, "steps": descSteps, "pointer_params_reallocated": "all pointer-typed parameters (Clone)"}
+		if len(init.notHeld) > 0 || len(init.stale) > 0 {
+			desc["before_not_holding"] = init.notHeld
+			desc["before_stale"] = init.stale
+		}
+		out.Case(cqApp("History", skippedTerm, s.term(init, relevant), cqList(terms)), desc, class, nontrivial)
+		return okSteps
+	}
+
+	// 1. single-group reloads: the corpus (groups behind past findings, in-place reloads) first, then a seeded selection
+	find := func(name string) int {
+		for i, g := range vC13Groups {
+			if len(g) > 0 && g[0] == name {
+				return i
+			}
+		}
+		t.Fatalf("group %s not found", name)
+		return 0
+	}
+	order := []int{0, find("SRTPAddress"), find("MulticastIPRange"), find("MulticastSRTPPort"), find("RTSPUDPReadBufferSize"),
+		find("*users"), find("*paths"), find("*cleaner"), find("*cleaner"), find("*users"), 0}
 	rest := make([]int, 0, len(vC13Groups))
 	for i := range vC13Groups {
 		rest = append(rest, i)
@@ -198,65 +1012,107 @@ paths:
 	if n < len(order) {
 		order = order[:n]
 	}
-
 	for _, gi := range order {
-		group := vC13Groups[gi]
-		cur := p.conf.Load()
-		newConf := cur.Clone()
-		var changed []string
-		for _, name := range group {
-			if mu.apply(newConf, name) {
-				changed = append(changed, name)
+		runHistory("single", [][]string{vC13Groups[gi]})
+	}
+
+	// 2. histories: several groups at once; servers switched off and on again
+	nh := 2 + n/14
+	for h := 0; h < nh; h++ {
+		var steps [][]string
+		var off []string
+		for st := 0; st < 4; st++ {
+			var group []string
+			if st%2 == 0 { // switch some servers off
+				off = nil
+				for _, f := range vC13Flags {
+					if r.Intn(3) == 0 {
+						off = append(off, f)
+					}
+				}
+				if len(off) == 0 {
+					off = []string{vPick(r, vC13Flags)}
+				}
+				group = append(group, off...)
+			} else { // and on again
+				group = append(group, off...)
 			}
+			for k := 0; k < 1+r.Intn(2); k++ {
+				for _, g := range vC13Groups[1+r.Intn(len(vC13Groups)-1)] {
+					dup := false
+					for _, x := range group {
+						if x == g || (g == "*cleaner" && x == "*paths") || (g == "*paths" && x == "*cleaner") {
+							dup = true
+						}
+					}
+					if !dup {
+						group = append(group, g)
+					}
+				}
+			}
+			steps = append(steps, group)
 		}
-		// pointer-typed parameters whose pointer differs between the two configurations
-		var ptrFresh []string
-		cv, nv := reflect.ValueOf(cur).Elem(), reflect.ValueOf(newConf).Elem()
-		for i := 0; i < cv.NumField(); i++ {
-			if cv.Field(i).Kind() == reflect.Ptr && cv.Type().Field(i).IsExported() {
-				if cv.Field(i).Pointer() != nv.Field(i).Pointer() {
-					ptrFresh = append(ptrFresh, cv.Type().Field(i).Name)
+		runHistory("history", steps)
+	}
+	// a fixed one: every optional server off, a change while they are off, everything on again
+	runHistory("history", [][]string{vC13Flags, {"ReadTimeout", "*users", "*paths"}, vC13Flags, {"RTSPEncryption"}, {"RTSPEncryption"}})
+
+	// 3. thorough: every global parameter the table mentions, one at a time (guards and modes: changed, then restored)
+	if thorough {
+		swept, unsw := 0, 0
+		for _, f := range notes.fields() {
+			if f == "Paths" || f == "AuthInternalUsers" {
+				continue // covered by the in-place groups
+			}
+			cur := s.p.conf.Load()
+			if runHistory("sweep", [][]string{{f}}) == 0 {
+				unsw++
+				continue
+			}
+			swept++
+			isGuard := false
+			for _, rw := range notes.Table {
+				for _, g := range rw.Guard {
+					if g == f {
+						isGuard = true
+					}
+				}
+			}
+			if isGuard { // restore: the component comes back / the mode returns
+				init := s.begin()
+				back := cur.Clone()
+				if err := back.Validate(nil); err != nil {
+					t.Fatalf("the previous configuration no longer validates: %v", err)
+				}
+				track(back)
+				if o, err := s.reload(back); err == nil {
+					out.Case(cqApp("History", skippedTerm, s.term(init, relevant), cqList([]string{s.term(o, relevant)})),
+						map[string]any{"kind": "sweep-restore", "steps": []any{map[string]any{"changed": []string{f}, "instances": o.ident,
+							"not_holding_the_new_value": o.notHeld, "stale_references": o.stale}}}, "sweep-restore", true)
+				} else {
+					reloadErrors["restore "+f] = err.Error()
+					restart("restore " + f)
 				}
 			}
 		}
-		before := vC13Pointers(p)
-		err := p.reloadConf(newConf)
-		if err != nil {
-			out.extra["reload_error_"+strings.Join(group, "+")] = err.Error()
-			t.Logf("reload with %v failed: %v", group, err)
-			p.reloadConf(cur) //nolint:errcheck
-			continue
-		}
-		after := vC13Pointers(p)
-		var obs []string
-		obsD := map[string]bool{}
-		names := make([]string, 0, len(before))
-		for c := range before {
-			names = append(names, c)
-		}
-		sort.Strings(names)
-		nrec := 0
-		for _, c := range names {
-			if before[c] == 0 {
-				continue // not running before the reload
-			}
-			rec := after[c] != before[c]
-			if rec {
-				nrec++
-			}
-			obs = append(obs, cqPair(fmt.Sprintf("%q", c), cqBool(rec)))
-			obsD[c] = rec
-		}
-		q := func(xs []string) string {
-			return cqListOf(xs, func(s string) string { return fmt.Sprintf("%q", s) })
-		}
-		class := "some-recreated"
-		if nrec == 0 {
-			class = "none-recreated"
-		} else if nrec == len(obs) {
-			class = "all-recreated"
-		}
-		out.Case(cqApp("Reload", q(changed), q(ptrFresh), cqList(obs)),
-			map[string]any{"changed": changed, "pointer_params_reallocated": ptrFresh, "recreated": obsD}, class, len(changed) > 0)
+		out.extra["swept_fields"] = swept
+		out.extra["unswept_fields"] = unsw
 	}
+
+	out.extra["bindings_compared_per_observation"] = maxCompared
+	out.extra["reload_errors"] = reloadErrors
+	out.extra["not_mutated"] = unmutable
+	out.w.Flush()
+}
+
+// mutate2 = mutate, but an empty group means "the same configuration again"
+func (m *vC13Mut) mutate2(cur *conf.Conf, names []string) (*conf.Conf, error) {
+	if len(names) == 0 { // as the API does: Clone, then Validate (which fills the derived parts, e.g. Path.Regexp)
+		c := cur.Clone()
+		if err := c.Validate(nil); err != nil {
+			return nil, err
+		}
+		return c, nil
+	}
+	return m.mutate(cur, names)
 }
